@@ -166,6 +166,7 @@ def run(chk):
                        'B: the real functions are compared with an independent integer-arithmetic formatter on boundary microseconds x 12 dates '
                        '(years 1..9999) x 13 offsets x 6 (precision, constraint) pairs, dates, and strings with 0-6 fraction digits; thorough tier: '
                        'all 10^6 microsecond values x 6 pairs.')
+    chk.assume('the contracts take the UTC offset of a value as given (a number); which offset a zone assigns to a wall-clock time, incl. fold, is exercised by the bounded zone run only')
     chk.trust('contracts/timefmt.py spec functions as a reading of the property statement', 'civil-from-days algorithm used by the native oracle')
     for c in contracts():
         chk.prove(c)
@@ -230,7 +231,7 @@ def run(chk):
             d = dtm.datetime(2021, 7, 4, 23, 59, 59, us, tzinfo=dtm.timezone.utc)
             for ver, P, C in (('2.1', 'MILLISECOND', 'MIN'), ('2.0', 'MILLISECOND', 'EXACT')):
                 for route in ('constructor(datetime)', 'constructor(text)', 'parse', 'ObjectFactory default', 'ObjectFactory(created=text)', 'Environment factory default', 'deepcopy of the object', 'deepcopy of the bundle',
-                              'new_version of it', 'member of a bundle', 'through MemoryStore'):
+                              'new_version of it', 'member of a bundle', 'through MemoryStore', 'deep copy of the timestamp object', 'pickle round trip of the object'):
                     yield (us, ver, P, C, route, d)
 
     def check_route(case):
@@ -258,14 +259,67 @@ def run(chk):
             elif route == 'member of a bundle': o = stix2.parse(V.Bundle(V.Identity(created=d, modified=d, **kw)).serialize()).objects[0]
             elif route == 'through MemoryStore':
                 ms = stix2.MemoryStore(); src = V.Identity(created=d, modified=d, **kw); ms.add(src); o = ms.get(src.id)
-            else: return None
+            elif route == 'pickle round trip of the object':
+                import pickle
+                o = pickle.loads(pickle.dumps(V.Identity(created=d, modified=d, **kw)))
+            else:
+                src = V.Identity(created=d, modified=d, **kw)
+                got = U.format_datetime(_copy.deepcopy(src.created))
+                return None if got == want else ('route#text is the one the property\'s precision requires:' + route, f'{ver} created {text6}: a deep copy of the timestamp object is written {got!r}, the object writes {want!r}', {})
         except Exception as ex:
             return ('route#accepted:' + route, f'{ver} identity with created {text6} via {route}: {type(ex).__name__}: {ex}', {})
         got = _json.loads(o.serialize())
         for k in ('created', 'modified'):
             if got[k] != want: return ('route#text is the one the property\'s precision requires:' + route, f'{ver} identity {k} {text6} via {route}: written {got[k]!r}, specification formatter {want!r}', {})
     chk.bounded('native: every route of a timestamp into an object', list(route_cases()), check_route, classify=lambda c: (c[0], c[1], c[4]),
-                bound='9 microsecond values x 2 spec versions x 11 routes (constructors, parse, factory / environment defaults, deep copies, new_version, bundle, store)')
+                bound='9 microsecond values x 2 spec versions x 13 routes (constructors, parse, factory / environment defaults, deep copies, new_version, bundle, store)')
+    # ---- objects whose timestamp precision is decided from the value they are given (marking definitions): what is written is read back and written identically
+    def md_cases():
+        for us in (0, 1, 400, 999, 1000, 120000, 123456, 999999):
+            for aware in (True, False):
+                d = dtm.datetime(2021, 7, 4, 23, 59, 59, us, tzinfo=dtm.timezone.utc if aware else None)
+                for ver in ('2.0', '2.1'):
+                    for kind in ('datetime', 'text', 'text with 3 digits', 'timestamp object of another object'): yield (us, aware, ver, kind, d)
+    def check_md(case):
+        us, aware, ver, kind, d = case
+        V = stix2.v21 if ver == '2.1' else stix2.v20
+        da = d if aware else d.replace(tzinfo=dtm.timezone.utc)
+        if kind == 'datetime': v = d
+        elif kind == 'text': v = U.format_datetime(da)
+        elif kind == 'text with 3 digits': v = spec_text(us_of(da) - us_of(da) % 1000, 'MILLISECOND', 'EXACT')
+        else: v = stix2.v21.Identity(name='n', created=da, modified=da).created
+        try: m = V.MarkingDefinition(definition_type='statement', definition=V.StatementMarking('s'), created=v)
+        except Exception as ex: return ('marking#accepted', f'{ver} statement marking created from {kind} {v!r}: {type(ex).__name__}: {ex}', {})
+        t1 = m.serialize(); t2 = stix2.parse(t1, version=ver).serialize()
+        if t1 != t2: return ('marking#write, read, write is a fixed point', f'{ver} statement marking created from {kind} {v!r}: first written {_json.loads(t1)["created"]}, after reading it back {_json.loads(t2)["created"]}', {})
+        w = _json.loads(t1)['created']
+        if text_to_us(w) > us_of(da) or us_of(da) - text_to_us(w) >= 1000: return ('marking#truncated by less than a millisecond, never rounded up', f'{ver} statement marking created from {kind} {v!r} is written {w}', {})
+    chk.bounded('native: marking definitions (precision decided from the value given)', list(md_cases()), check_md, classify=lambda c: c[:4],
+                bound='8 microsecond values x aware / naive x 2 spec versions x 4 value kinds (datetime, full text, 3-digit text, timestamp object of another object)')
+
+    # ---- zone-based offsets (IANA zones via zoneinfo): the offset depends on the date and, at the end of daylight saving time, on `fold`; the text denotes the instant
+    try:
+        import zoneinfo
+        zones = [zoneinfo.ZoneInfo(z) for z in ('Europe/Berlin', 'America/New_York', 'Australia/Lord_Howe', 'Asia/Kolkata')]
+    except Exception as ex:       # noqa (no tz database on this platform)
+        zones = []; chk.undecided_notes.append(f'zoneinfo not usable here ({ex!r}): zone-based offsets not exercised')
+    def zone_cases():
+        for z in zones:
+            for (y, mo, d_, h, mi) in ((2021, 10, 31, 2, 30), (2021, 3, 28, 2, 30), (2021, 11, 7, 1, 30), (2021, 4, 4, 1, 45), (2021, 7, 1, 12, 0), (2021, 1, 1, 0, 0)):
+                for fold in (0, 1):
+                    for us in (0, 123456): yield (z, dtm.datetime(y, mo, d_, h, mi, 0, us, tzinfo=z, fold=fold))
+    def check_zone(case):
+        z, d = case
+        inst = d.astimezone(dtm.timezone.utc)          # the instant Python assigns to this wall time, zone and fold
+        want = spec_text(us_of(inst), 'MILLISECOND', 'MIN')
+        for route, fn in (('format_datetime(datetime)', lambda: spec_text(text_to_us(U.format_datetime(d)), 'MILLISECOND', 'MIN')), ('2.1 identity created', lambda: _json.loads(stix2.v21.Identity(name='n', created=d, modified=d).serialize())['created']),
+                          ('TimestampProperty.clean', lambda: U.format_datetime(SP.TimestampProperty(precision='millisecond', precision_constraint='min').clean(d)[0])),
+                          ('deep copy of the object', lambda: _json.loads(_copy.deepcopy(stix2.v21.Identity(name='n', created=d, modified=d)).serialize())['created'])):
+            try: got = fn()
+            except Exception as ex: return ('zone#accepted', f'{route} of {d!r} (fold={d.fold}): {type(ex).__name__}: {ex}', {})
+            if got != want: return ('zone#text denotes the instant', f'{route} of {d.isoformat()} {z.key} fold={d.fold} writes {got}, the instant is {want}', {})
+    chk.bounded('native: zone-based offsets incl. ambiguous and skipped wall-clock times', list(zone_cases()), check_zone, classify=lambda c: (c[0].key, c[1].isoformat(), c[1].fold),
+                bound='4 IANA zones x 6 wall-clock times (both DST transitions of each hemisphere, summer, winter) x fold 0/1 x 2 microsecond values x 4 routes')
     if chk.tier == 'thorough':
         step = M // 64
         with mp.Pool(16) as pool:
